@@ -409,6 +409,30 @@ def tamperings(cfg):
 
     T["in-derivation-wrong-path"] = (in_path, True)
 
+    def in_other_child(p):
+        # one derivation entry (key AND path) replaced by another valid child of the same cosigner that is
+        # not in the input script
+        im = p["ins"][0]
+        for j, (k, v) in enumerate(im):
+            if k[:1] == b"\x06":
+                who = [i for i in range(n) if cosigner(i)["xfp"] == v[:4]][0]
+                im[j] = (b"\x06" + child_sec(who, 0, 40), path_bytes(cosigner(who)["xfp"], 0, 40))
+                return
+
+    T["in-derivation-replaced-by-other-child-of-same-cosigner"] = (in_other_child, True)
+
+    if ci is not None:
+
+        def out_other_child(p):
+            om = p["outs"][ci]
+            for j, (k, v) in enumerate(om):
+                if k[:1] == b"\x02":
+                    who = [i for i in range(n) if cosigner(i)["xfp"] == v[:4]][0]
+                    om[j] = (b"\x02" + child_sec(who, 1, 41), path_bytes(cosigner(who)["xfp"], 1, 41))
+                    return
+
+        T["out-derivation-replaced-by-other-child-of-same-cosigner"] = (out_other_child, None)
+
     def in_outpoint(p):
         p["tx"]["ins"][0]["index"] ^= 1
         retx(p)
